@@ -43,6 +43,23 @@ def run(prog, rep):
     rep.expect_min("C08.chain", 6)
     from .purity import row as _stateless_row
     rep.part(_stateless_row, prog, rep, "C08", 4)
+    # "behaves exactly like its template family with every parameter set ..., for pdf, cdf, icdf and sampling": each of the four
+    # template methods must hand the explicitly passed parameters to scipy through the family's one mapping (the rows of C05.siblings),
+    # and sampling with vector-valued parameters must give one draw per conditioning value (the rows of C07.size / C07.family)
+    from vstat.report import Relabel
+    from . import c07
+    from .distfam import families as _fams
+    meth = Relabel(rep, "C08.methods", lambda r, inst: r in ("C05.siblings", "C05.generic"))
+    for fam in _fams(prog, include_generic=True):
+        rep.part(c05.generic if fam.generic else c05.siblings, prog, meth, fam)
+    rep.expect_min("C08.methods", 70)
+    vec = Relabel(rep, "C08.vector", lambda r, inst: r == "C07.size" or (r == "C07.family" and inst.endswith(":size")))
+    rep.part(c07.size, prog, vec)
+    rep.part(c07.family, prog, vec)
+    rep.expect_min("C08.vector", 9)
+    rep.explanation += (" C08.methods: the rows of C05.siblings/C05.generic - cdf/icdf/pdf/draw_sample of every family pass exactly the slot tuple of "
+                        "_get_scipy_parameters(<their own parameter formals, in the order of the parameters>) to the matching scipy function. "
+                        "C08.vector: the rows of C07.size - vector-valued parameters give size (n, len(vector)), so one vectorised call equals the calls one at a time.")
 
 def values(prog, rep):
     q = f"{CD}._get_param_values"
